@@ -216,3 +216,34 @@ CONTRACTS["results:Result.get_coverage#annualisation"] = dict(
     ensures=[("C13.one_off_programs_are_reported_per_year_and_continuous_programs_as_they_are",
               "all(output['p'][i] == (PER_STEP[i] / dt if ONE_OFF else PER_STEP[i]) for i in range(n))")],
     defined_props=["C13"])
+
+
+# ---- Result.get_alloc (C13: "the spending ... reported from the finished result [is] the one that produced those values"): the report asks the program set of the run
+# for its allocation under the instructions of the run, at the requested years or at the simulation times; a run without programs reports None
+def _env_alloc(with_progset, year):
+    def make(it):
+        from pyvc.interp import PyObjV
+        from pyvc.core import Opaque
+        from pyvc import source
+
+        rm = source.load("results")
+        ps = PyObjV("ProgramSet", source.load("programs"), {"CALLS": []}) if with_progset else None
+        ins = Opaque("instructions of the run")
+        T = Opaque("simulation times")
+        model = PyObjV("Model", source.load("model"), {"progset": ps, "program_instructions": ins, "t": T})
+        return {"self": PyObjV("Result", rm, {"model": model}), "year": year, "PS": ps, "INS": ins, "T": T}
+
+    return make
+
+
+def _ghost_get_alloc(it, year, instructions=None):
+    it.stub_receiver.fields["CALLS"].append((year, instructions))
+    return "ALLOCATION"
+
+
+for _tag, _ps, _year, _clause in (("at_the_simulation_times", True, None, "result == 'ALLOCATION' and len(PS.CALLS) == 1 and PS.CALLS[0][0] is T and PS.CALLS[0][1] is INS"),
+                                  ("at_the_requested_years", True, 2025.0, "result == 'ALLOCATION' and len(PS.CALLS) == 1 and PS.CALLS[0][0] == 2025.0 and PS.CALLS[0][1] is INS"),
+                                  ("without_programs", False, None, "result is None")):
+    CONTRACTS["results:Result.get_alloc#%s" % _tag] = dict(
+        schema=schema, make_env=_env_alloc(_ps, _year), call_stubs={"self.model.progset.get_alloc": _ghost_get_alloc}, stubs={"self.t": "T"},
+        ensures=[("C13.reported_spending_is_the_program_sets_allocation_under_the_instructions_of_the_run", _clause)], defined_props=["C13"])
